@@ -8,6 +8,7 @@ only), and the raw-number collapse with the model's "dimensionless and magnitude
 from fractions import Fraction
 from .. import framework as F
 from .. import terms as T
+from .. import fpeval
 
 # ----------------------------------------------------------------------------------------------------------------------
 # independent unit model
@@ -157,7 +158,7 @@ def is_int(ct):
     return not F.ct_is_float(ct)
 
 
-def pow_expr(ct, k, narrow):
+def pow_expr(ct, k):
     """raw expression with the association order of a square-and-multiply recursion: x^0 = 1, odd: x * x^(k-1),
     even: r = x^(k/2); r*r.  Every level's value is converted back to T as a function returning T would."""
     T1 = "(%s)1" % ct
@@ -174,13 +175,23 @@ def pow_expr(ct, k, narrow):
     return rec(k)
 
 
+def same_bits(ct, a, r):
+    """result equality: identical bits; for floating results two NaNs also count as equal (which NaN an arithmetic
+    operation returns is not specified by C++/IEEE 754, and clang folds x*1.0 -> x which keeps a signalling NaN)"""
+    e = T.eq(a, r)
+    if F.ct_is_float(ct):
+        fmt = F.FMT_OF[ct]
+        return T.or_(e, T.and_(T.fp_isnan(fmt, a), T.fp_isnan(fmt, r)))
+    return e
+
+
 PRELUDE = """
 template <class T> struct AuvUnitOf { using type = UnitProductT<>; };
 template <class U, class R> struct AuvUnitOf<Quantity<U, R>> { using type = U; };
 template <class T> struct AuvRepOf { using type = T; };
 template <class U, class R> struct AuvRepOf<Quantity<U, R>> { using type = R; };
-template <class T> struct AuvIsQuantity : std::false_type {};
-template <class U, class R> struct AuvIsQuantity<Quantity<U, R>> : std::true_type {};
+// raw square-and-multiply recursion with the association order of math.hh (x^0 = 1; odd: x * x^(k-1); even: r = x^(k/2), r*r)
+template <class T> constexpr T auv_pow(T x, int k) { if (k < 0) { return T{1} / auv_pow(x, -k); } if (k == 0) { return T{1}; } if (k % 2 == 1) { return x * auv_pow(x, k - 1); } const auto r = auv_pow(x, k / 2); return r * r; }
 """
 
 
@@ -239,6 +250,7 @@ class C14(F.Check):
         ks = []
         self.pairs = []       # (tag, au kernel, ref kernel, arg ctypes, ret ctype, key, family, expect_compile)
         self.zpow = []        # (tag, au kernel, ct, k, key)
+        self.trees = []       # (tag, au kernel, explicit-tree reference, ct, k, key)
         self.closed = []      # (kernel name, expected bool, note, key)
         self.probes = []      # (kernel name, message regex, key)
         self.refs = {}
@@ -319,14 +331,18 @@ class C14(F.Check):
             for k in range(-4, 5):
                 if is_int(ct) and k < 0:
                     continue
-                rk = ref("c14_ref_pow_%s_%s" % (s, str(k).replace("-", "m")), ct, a1, "return %s;" % pow_expr(ct, k, True))
+                ks_ = str(k).replace("-", "m")
+                rk = ref("c14_ref_pow_%s_%s" % (s, ks_), ct, a1, "return auv_pow<%s>(x, %d);" % (ct, k))
+                rt = ref("c14_ref_tree_%s_%s" % (s, ks_), ct, a1, "return %s;" % pow_expr(ct, k))
                 for i, a in enumerate(self.pow_units):
                     ma, ta, ua = U(a)
                     if is_int(ct) and i > 0 and self.tier != "thorough":
                         continue
                     key = {"rep": ct, "unit": a, "k": k, "op": "int_pow"}
-                    tag = "pow_%s_%s_%d" % (s, str(k).replace("-", "m"), i)
+                    tag = "pow_%s_%s_%d" % (s, ks_, i)
                     kk = pair(tag, ct, a1, "return int_pow<%d>(%s(x)).in(%s{});" % (k, ma, ua.pow(k).cxx()), rk, key, "int_pow")
+                    if i == 0:
+                        self.trees.append((tag, kk.name, rt, ct, k, key))
                     if is_int(ct) and F.ct_signed(ct) and i == 0 and k >= 2:
                         self.zpow.append((tag, kk.name, ct, k, key))
             # roots
@@ -346,14 +362,14 @@ class C14(F.Check):
             rid = ref("c14_ref_id_" + s, ct, a1, "return x;")
             pair("raw_unos_" + s, ct, a1, "return as_raw_number(unos(x));", rid, {"rep": ct, "unit": "1", "op": "as_raw_number"}, "as_raw_number")
             pair("raw_id_" + s, ct, a1, "return as_raw_number(x);", rid, {"rep": ct, "unit": "(raw)", "op": "as_raw_number"}, "as_raw_number")
-            pair("raw_hzs_" + s, F.promoted(ct) if is_int(ct) else ct, a1, "return as_raw_number(hertz(x) * seconds(%s(1)));" % ct,
-                 ref("c14_ref_x1_" + s, F.promoted(ct) if is_int(ct) else ct, a1, "return x * %s(1);" % ct),
+            pair("raw_hzs_" + s, F.promoted(ct) if is_int(ct) else ct, a1, "return as_raw_number(hertz(x) * seconds((%s)1));" % ct,
+                 ref("c14_ref_x1_" + s, F.promoted(ct) if is_int(ct) else ct, a1, "return x * (%s)1;" % ct),
                  {"rep": ct, "unit": "Hz*s", "op": "as_raw_number"}, "as_raw_number")
             if F.ct_is_float(ct):
-                r100 = ref("c14_ref_div100_" + s, ct, a1, "return x / %s(100);" % ct)
+                r100 = ref("c14_ref_div100_" + s, ct, a1, "return x / (%s)100;" % ct)
                 pair("raw_pct_" + s, ct, a1, "return as_raw_number(percent(x));", r100, {"rep": ct, "unit": "pct", "op": "as_raw_number"}, "as_raw_number")
             if F.ct_is_float(ct) or ct in ("int32_t", "int64_t", "uint32_t", "uint64_t"):
-                r1000 = ref("c14_ref_mul1000_" + s, ct, a1, "return x * %s(1000);" % ct)
+                r1000 = ref("c14_ref_mul1000_" + s, ct, a1, "return x * (%s)1000;" % ct)
                 pair("raw_k_" + s, ct, a1, "return as_raw_number(make_quantity<decltype(Unos{} * mag<1000>())>(x));", r1000,
                      {"rep": ct, "unit": "1000 x unos", "op": "as_raw_number"}, "as_raw_number")
 
@@ -392,10 +408,10 @@ class C14(F.Check):
             rp = "%s_%s" % (sfx(r1), sfx(r2))
             for op, (a, b) in (("*", ("m", "s")), ("/", ("m", "s")), ("*", ("Hz", "s"))):
                 if op == "/" and is_int(r1) and is_int(r2):
-                    e = "meters(%s{}) / unblock_int_div(seconds(%s{}))" % (r1, r2)
+                    e = "meters((%s)1) / unblock_int_div(seconds((%s)1))" % (r1, r2)
                 else:
-                    e = "%s(%s{}) %s %s(%s{})" % (UNITS[a][0], r1, op, UNITS[b][0], r2)
-                closed("rep_%s_%s%s" % (rp, "m" if op == "*" else "d", a), "return std::is_same<typename AuvRepOf<decltype(%s)>::type, decltype(%s{} %s %s{})>::value;" % (e, r1, op, r2),
+                    e = "%s((%s)1) %s %s((%s)1)" % (UNITS[a][0], r1, op, UNITS[b][0], r2)
+                closed("rep_%s_%s%s" % (rp, "m" if op == "*" else "d", a), "return std::is_same<typename AuvRepOf<decltype(%s)>::type, decltype((%s)1 %s (%s)1)>::value;" % (e, r1, op, r2),
                        True, "rep of the result is the type of the raw operator on the reps", {"rep1": r1, "rep2": r2, "op": op, "unit1": a, "unit2": b})
         # powers and roots
         for a in ["m", "ft", "Hz", "pct", "m/s", "N"]:
@@ -471,16 +487,74 @@ class C14(F.Check):
             vs = [("x%d" % i, F.ct_sort(ct)) for i, ct in enumerate(argcts)]
             isfp = any(F.ct_is_float(c) for c in argcts + [ret])
 
-            def fn(K, *xs, au=au, rf=rf):
+            def fn(K, *xs, au=au, rf=rf, ret=ret):
                 a = K[au](*xs)
                 r = K[rf](*xs)
-                return T.TRUE, T.and_(T.eq(a.ret, r.ret), T.eq(a.ub, r.ub))
+                return T.TRUE, T.and_(same_bits(ret, a.ret, r.ret), T.eq(a.ub, r.ub))
             kind = "claimed"
             to = None
             if "long double" in argcts and self.tier != "thorough":
                 to = 60
             obs.append(F.Ob("eq:" + tag, vs, fn, kind=kind, routes=F.FP_ROUTES if isfp else F.INT_ROUTES, key=key,
                             kernels=[au, rf], timeout=to, note="au %s == raw reference: same result bits, same trap condition" % fam))
+        # int_pow against the explicit multiplication tree (x*x, x*(x*x), (x*x)*(x*x), 1/...): the library multiplies by an
+        # explicit 1 at the bottom of its recursion, which the compiler keeps at run time (int_pow_impl is not inlined)
+        for tag, au, rt, ct, k, key in self.trees:
+            if K[au].kernel.dropped or K[rt].kernel.dropped:
+                continue
+            isfp = F.ct_is_float(ct)
+
+            if not isfp:
+                def tfn(K, x, au=au, rt=rt, ct=ct):
+                    a = K[au](x)
+                    r = K[rt](x)
+                    return T.TRUE, T.and_(same_bits(ct, a.ret, r.ret), T.eq(a.ub, r.ub))
+                obs.append(F.Ob("tree:" + tag, [("x", F.ct_sort(ct))], tfn, routes=F.INT_ROUTES, key=key, kernels=[au, rt],
+                                note="int_pow<k> == explicit raw multiplication tree in square-and-multiply association order"))
+                continue
+            # floating reps, compositional: (L) x (*) 1 == x for every non-NaN x   [tree k=1, solver]
+            #   (S) non-NaN x: the au term with every "x (*) 1" replaced by x (justified by L) == explicit tree  [structural]
+            #   (N) NaN x: both results are NaN  [solver]
+            fmt = F.FMT_OF[ct]
+            wd = T.fmt_width(fmt)
+            one = T.const_bv(fpeval.from_fraction(fmt, Fraction(1)), wd)
+            xs = [("x", T.BV(wd))]
+            slow = ct == "long double"
+
+            def lfn(K, x, au=au, rt=rt, ct=ct, fmt=fmt):
+                a = K[au](x)
+                r = K[rt](x)
+                return T.not_(T.fp_isnan(fmt, x)), T.and_(T.eq(a.ret, r.ret), T.eq(a.ub, r.ub))
+
+            def sfn(K, x, au=au, rt=rt, ct=ct, fmt=fmt, one=one):
+                a = K[au](x)
+                r = K[rt](x)
+                m = {t.uid: x for t in T.subterms([a.ret]) if t.op == "fp.mul" and
+                     ((t.args[0] is x and t.args[1] is one) or (t.args[1] is x and t.args[0] is one))}
+                a2 = T.substitute(a.ret, m) if m else a.ret
+                return T.not_(T.fp_isnan(fmt, x)), T.and_(T.eq(a2, r.ret), T.eq(a.ub, r.ub))
+
+            def nfn(K, x, au=au, rt=rt, ct=ct, fmt=fmt):
+                a = K[au](x)
+                r = K[rt](x)
+                return T.fp_isnan(fmt, x), T.and_(T.fp_isnan(fmt, a.ret), T.fp_isnan(fmt, r.ret), T.not_(a.ub), T.not_(r.ub))
+            if k == 1:
+                obs.append(F.Ob("tree_L:" + tag, xs, lfn, kind="stretch" if slow and self.tier != "thorough" else "claimed",
+                                routes=F.FP_ROUTES, key=key, kernels=[au, rt], timeout=60 if slow else None,
+                                note="lemma L: int_pow<1>(x) = x (*) 1 has the bits of x for every non-NaN x"))
+            else:
+                obs.append(F.Ob("tree_S:" + tag, xs, sfn, routes=F.FP_ROUTES, key=key, kernels=[au, rt],
+                                note="non-NaN x: int_pow<k> with x (*) 1 rewritten to x (lemma L) == explicit raw multiplication tree "
+                                     "in square-and-multiply association order"))
+            if k != 0:
+                # measured: k > 0 decides in < 4 s for every format; k < 0 (a division on top) 0.5-5 s for float,
+                # 3-24 s for double, 14-67 s for x87 -> those are stretch, attempted in the thorough tier only
+                nkind = "claimed" if (k > 0 or ct == "float") else "stretch"
+                if nkind == "stretch" and self.tier != "thorough":
+                    continue
+                obs.append(F.Ob("tree_N:" + tag, xs, nfn, kind=nkind,
+                                routes=F.FP_ROUTES, key=key, kernels=[au, rt], timeout=90 if nkind == "stretch" else None,
+                                note="NaN x: int_pow<k> and the explicit tree both return a NaN, no trap"))
         # int_pow against x^k in Z
         for tag, au, ct, k, key in self.zpow:
             if K[au].kernel.dropped:
@@ -488,6 +562,8 @@ class C14(F.Check):
             w = F.CTYPES[ct][1]
             lo, hi = F.ct_range(ct)
             small = w <= 16
+            if not small and k > 2 and self.tier != "thorough":
+                continue
 
             def zfn(K, x, au=au, ct=ct, k=k, lo=lo, hi=hi, small=small):
                 a = K[au](x)
